@@ -70,6 +70,11 @@ func (w *World) Canon(sat time.Duration) string {
 	sort.Strings(fk)
 	for _, k := range fk {
 		v := w.Truth.Flags[k]
+		for _, pre := range []string{"c12:sms-used:", "c07:cookie-class:"} {
+			if strings.HasPrefix(k, pre) {
+				k = pre + c.rnd(strings.TrimPrefix(k, pre)) // the key embeds a random value
+			}
+		}
 		if strings.HasPrefix(k, "oauth-prev-state:") {
 			v = c.rnd(v) // a remembered random value, not a literal
 		} else {
